@@ -72,6 +72,21 @@ def build_cases(tier, rng):
                 cases.append({"id": "ae%d_%d_%s" % (ei, ti, loc), "src": e["src"], "kind": "append", "location": loc, "text": list(ts.encode("latin-1")),
                               "rules": "[{ rule: 'append_text_comment', text: %s, location: '%s' }]" % (esc(ts), loc),
                               "design_safe": True, "opens_long": False, "lone_cr": False, "file": 100 + ei, "ending": e["gap"]})
+    # CREATED endings (Trivia!CreatedEndings): the last token of the file belongs to a node that an earlier rule of the same
+    # configuration created; the rules of C18 run after it.  Judged against what the earlier rules write alone.
+    created, st4, gen4 = trivia_cases(["created"])
+    for ei, e in enumerate(created):
+        pre = "[%s]" % e["pre"]
+        base = {"src": e["src"], "pre_rules": pre, "tpl": -1, "gap": e["gap"], "k1": 0, "k2": 0, "mode": "created", "tspans": []}
+        for ti, ts in enumerate(("x", "a\nb")):
+            for loc in ("end", "start"):
+                cases.append({"id": "ac%d_%d_%s" % (ei, ti, loc), "src": e["src"], "pre_rules": pre, "kind": "append", "location": loc, "text": list(ts.encode("latin-1")),
+                              "rules": "[{ rule: 'append_text_comment', text: %s, location: '%s' }]" % (esc(ts), loc),
+                              "design_safe": True, "opens_long": False, "lone_cr": False, "file": 300 + ei, "ending": e["gap"]})
+        cases.append(dict(base, id="cc%d" % ei, kind="remove_comments", rules="['remove_comments']", **{"except": []}))
+        cases.append(dict(base, id="cs%d" % ei, kind="remove_spaces", rules="['remove_spaces']"))
+    st3 += st4
+    gen3 += gen4
     # the token templates (incl. the typed ones) as files
     for c in trivia:
         if c["mode"] == "single" and c["gap"] == 0 and c["k1"] == 11:
